@@ -12,12 +12,12 @@ NO_CACHE = b'no-store, no-cache, private, max-age=0, must-revalidate, proxy-reva
 def shapes(t):
     q = t == 'quick'
     out = []
-    for n in range(1, (3 if q else 4) + 1):
+    for n in range(1, 3 + 1):
         out.append(dict(kind='target', method='GET', tlen=n))
     for m in (('HEAD', 'OPTIONS', 'POST') if q else ('HEAD', 'OPTIONS', 'POST', 'PUT', 'DELETE')):
         for n in (1, 2): out.append(dict(kind='target', method=m, tlen=n))
-    for n in range(0, (3 if q else 5) + 1): out.append(dict(kind='range', rlen=n))
-    out.append(dict(kind='raw', cap=4 if q else 6))
+    for n in range(0, (3 if q else 4) + 1): out.append(dict(kind='range', rlen=n))
+    out.append(dict(kind='raw', cap=4 if q else 5))
     out.append(dict(kind='readfail'))
     out.append(dict(kind='apperr'))
     for (m, target, ctype) in (('GET', '/', None), ('GET', '/style.css', None), ('GET', '/script.js', None), ('GET', '/favicon.svg', None), ('GET', '/form-get-method?a=b', None),
